@@ -60,7 +60,8 @@ func InjectDiagnostics(content string, diags []Diagnostic, color output.Color) s
 	for i, a := range diags {
 		for j := range i {
 			b := diags[j]
-			if a.FirstColumn == b.FirstColumn && a.LastColumn == b.LastColumn {
+			// Same range of the same value, the first diagnostic already points at it.
+			if a.FirstColumn == b.FirstColumn && a.LastColumn == b.LastColumn && slices.Equal(a.Pos, b.Pos) {
 				disablePoints[i] = true
 			}
 		}
